@@ -272,17 +272,22 @@ def check(col: Collector, tier: str):
 
 def check_get_rep(col, f):
     n = f.node
-    s_defs = [st for st in walk_no_nested(n) if isinstance(st, ast.Assign) and isinstance(st.value, ast.IfExp)
-              and isinstance(st.value.body, ast.Call) and call_name(st.value.body) == "current_scope"
-              and src(st.value.test) == "retain_scope" and src(st.value.orelse) == "None"]
-    ok = len(s_defs) == 1
+    # the token is taken (current_scope) exactly when retain_scope is set, before the visit; it is restored after the visit exactly
+    # when it was taken (tested through the flag or through the token itself)
+    pm = parent_map(n)
+    flag = n.args.args[2].arg if len(n.args.args) > 2 else "retain_scope"
+    s_defs = [st for st in walk_no_nested(n) if isinstance(st, ast.Assign) and isinstance(st.value, ast.Call) and call_name(st.value) == "current_scope"]
+    ok = len(s_defs) == 1 and (flag, True) in {(src(t), tr) for t, tr in guards(n, s_defs[0], pm)}
     if ok:
         tok = src(s_defs[0].targets[0])
-        pm = parent_map(n)
+        others = [st for st in walk_no_nested(n) if isinstance(st, ast.Assign) and src(st.targets[0]) == tok and st is not s_defs[0]]
         sets = [c for c in ast.walk(n) if isinstance(c, ast.Call) and call_name(c) == "set_scope" and src(c.args[0]) == tok]
         vis = [c for c in ast.walk(n) if isinstance(c, ast.Call) and call_name(c) == "visit"]
-        ok = len(sets) == 1 and len(vis) == 1 and ordk(s_defs[0]) < ordk(vis[0]) < ordk(sets[0]) and \
-            [(src(t), tr) for t, tr in guards(n, sets[0], pm)] == [(f"{tok} is None", False)]
+        ok = len(sets) == 1 and len(vis) == 1 and ordk(s_defs[0]) < ordk(vis[0]) < ordk(sets[0]) \
+            and all(src(o.value) == "None" and ordk(o) < ordk(vis[0]) and (flag, False) in {(src(t), tr) for t, tr in guards(n, o, pm)} for o in others)
+        if ok:
+            gs = [(src(t), tr) for t, tr in guards(n, sets[0], pm)]
+            ok = gs in ([(f"{tok} is None", False)], [(flag, True)]) and (gs == [(flag, True)] or len(others) == 1)
     col.add("C01.R2", f.short, "retain_scope-captures-before-and-restores-after", ok,
             "get_rep must capture the scope before visiting when retain_scope is set and restore it right after the visit", f.loc)
 
